@@ -131,6 +131,9 @@ def struct_constants(tree: ast.Module) -> ast.Module:
 
 
 # ------------------------------------------------------------------------------------------------ one function
+_PURE_EXTRA: set[str] = set()      # value classes and classes of the module being normalised (constructor calls)
+
+
 def _is_pure(e: ast.AST) -> bool:
     for n in ast.walk(e):
         if isinstance(n, (ast.Await, ast.Yield, ast.YieldFrom, ast.NamedExpr, ast.Lambda, ast.ListComp, ast.SetComp, ast.DictComp,
@@ -138,7 +141,7 @@ def _is_pure(e: ast.AST) -> bool:
             return False
         if isinstance(n, ast.Call):
             f = ast.unparse(n.func)
-            if f in PURE_FUNCS:
+            if f in PURE_FUNCS or f in _PURE_EXTRA:
                 continue
             if isinstance(n.func, ast.Attribute) and n.func.attr in PURE_METHODS:
                 continue
@@ -196,13 +199,16 @@ def _negate(t: ast.AST) -> ast.AST:
     return ast.copy_location(new, t)
 
 
-def function(fn: ast.FunctionDef, tree: ast.Module) -> ast.FunctionDef:
+def function(fn: ast.FunctionDef, tree: ast.Module, consts: bool = True, aliases: bool | str = True) -> ast.FunctionDef:
     fn = copy.deepcopy(fn)
     bound = _bound_names(fn)
+    _PURE_EXTRA.clear()
+    _PURE_EXTRA.update({'Vec', 'FrozenVec', 'Angle', 'FrozenAngle', 'Matrix', 'FrozenMatrix'})
+    _PURE_EXTRA.update(n.name for n in tree.body if isinstance(n, ast.ClassDef))
     # 1. module-level literal constants
     env: dict[str, ast.AST] = {}
     for name, vals in _module_assigns(tree).items():
-        if len(vals) == 1 and isinstance(vals[0], ast.Constant) and type(vals[0].value) in (int, str, bytes) and name not in bound:
+        if consts and len(vals) == 1 and isinstance(vals[0], ast.Constant) and type(vals[0].value) in (int, str, bytes) and name not in bound:
             env[name] = vals[0]
     if env:
         _Subst(env).visit(fn)
@@ -215,17 +221,19 @@ def function(fn: ast.FunctionDef, tree: ast.Module) -> ast.FunctionDef:
         return sum(1 for n in ast.walk(root or fn) if isinstance(n, ast.Name) and n.id == name and isinstance(n.ctx, ast.Load))
 
     # 2. aliases of names / attribute chains
-    changed = True
+    changed = bool(aliases)
     while changed:
         changed = False
         for i, st in enumerate(fn.body):
             if isinstance(st, ast.Assign) and len(st.targets) == 1 and isinstance(st.targets[0], ast.Name) and stores(st.targets[0].id) == 1:
                 v = st.value
                 chain = v
-                while isinstance(chain, ast.Attribute):
+                while isinstance(chain, ast.Attribute) or (isinstance(chain, ast.Subscript) and isinstance(chain.slice, ast.Constant)):
                     chain = chain.value
                 if not isinstance(chain, ast.Name):
                     continue
+                if aliases == 'table-entries' and not isinstance(v, ast.Subscript):
+                    continue            # only `x = table['KEY']`
                 if stores(chain.id) > 1 or chain.id == st.targets[0].id:
                     continue
                 text = ast.unparse(v)
@@ -297,14 +305,14 @@ def function(fn: ast.FunctionDef, tree: ast.Module) -> ast.FunctionDef:
     return ast.fix_missing_locations(fn)
 
 
-def functions(tree: ast.Module, names: set[str]) -> ast.Module:
-    """A copy of the module in which the named functions (module level or methods) are normalised."""
+def functions(tree: ast.Module, names: set[str] | None, consts: bool = True, aliases: bool | str = True) -> ast.Module:
+    """A copy of the module in which the named functions (module level or methods; None = all) are normalised."""
     tree = copy.deepcopy(tree)
 
     class T(ast.NodeTransformer):
         def visit_FunctionDef(self, node: ast.FunctionDef) -> ast.AST:
-            if node.name in names:
-                return function(node, tree)
+            if names is None or node.name in names:
+                return function(node, tree, consts, aliases)
             self.generic_visit(node)
             return node
     return T().visit(tree)
